@@ -1,5 +1,6 @@
 #include <nano/function/penalty.h>
 #include <nano/solver/penalty.h>
+#include <nano/verif.h>
 
 using namespace nano;
 
@@ -36,6 +37,8 @@ solver_state_t solver_penalty_t::minimize(penalty_function_t& penalty_function, 
 
         // increase penalty until the solution is bounded
         const auto iter_ok = cstate.valid();
+        NANO_VERIF_TRACE("penalty.outer", outer, penalty, epsilon, iter_ok, ::nano::converged(bstate, cstate, epsilon),
+                         cstate.x(), cstate.fx(), bstate.x());
         if (!iter_ok)
         {
             penalty *= eta;
